@@ -493,6 +493,74 @@ def probe_directives():
     return out
 
 
+def probe_view_defaults():
+    """the `viewdefaults` merge, observed end to end: `config.add_view(Sub, attr='go', …)` under a security policy with
+    base class {undecorated, @view_defaults without permission, permission 'b', the marker} x Sub itself {same four, 'o'} x
+    explicit argument {absent, 'e', the marker} x default permission {unset, 'd'}; the guard of the derived callable is
+    read back (0 none, 1 'e', 2 'b', 3 'o', 4 'd').  Also: a class-level permission makes add_forbidden_view /
+    add_notfound_view / add_exception_view refuse the class (their `permission` argument check)."""
+    from pyramid.config import Configurator
+    from pyramid.view import view_defaults
+    from pyramid.security import NO_PERMISSION_REQUIRED
+    from pyramid.exceptions import ConfigurationError
+
+    class Pol:
+        def permits(self, request, context, permission):
+            return False
+    rows = []
+    VD = {0: None, 1: {'http_cache': 0}, 2: 'name', 3: {'permission': NO_PERMISSION_REQUIRED}}
+    for base, own, explicit, dflt in itertools.product((0, 1, 2, 3), (0, 1, 2, 3), (0, 1, 2), (0, 1)):
+        class Base:
+            def __init__(self, context, request):
+                pass
+
+            def go(self):
+                return 'x'
+        if base:
+            Base = view_defaults(**({'permission': 'b'} if base == 2 else VD[base]))(Base)
+        Sub = type('Sub', (Base,), {})
+        if own:
+            Sub = view_defaults(**({'permission': 'o'} if own == 2 else VD[own]))(Sub)
+        config = Configurator(autocommit=False)
+        config.set_security_policy(Pol())
+        if dflt:
+            config.set_default_permission('d')
+        kw = {}
+        if explicit == 1:
+            kw['permission'] = 'e'
+        elif explicit == 2:
+            kw['permission'] = NO_PERMISSION_REQUIRED
+        config.add_view(Sub, attr='go', name='probe', **kw)
+        config.commit()
+        mine = [i['introspectable'] for i in config.introspector.get_category('views') if i['introspectable'].get('callable') is Sub]
+        if len(mine) != 1:
+            guard = 9
+        else:
+            derived = mine[0]['derived_callable']
+            if not hasattr(derived, '__call_permissive__'):
+                guard = 0
+            else:
+                guard = {'e': 1, 'b': 2, 'o': 3, 'd': 4}.get(getattr(derived, '__permission__', None), 9)
+        rows.append({'base': base, 'own': own, 'explicit': explicit, 'dflt': dflt, 'guard': guard})
+    rejected = []
+    for name in ('add_forbidden_view', 'add_notfound_view', 'add_exception_view'):
+        @view_defaults(permission='b')
+        class B2:
+            def __init__(self, context, request):
+                pass
+
+            def go(self):
+                return 'x'
+        S2 = type('S2', (B2,), {})
+        config = Configurator(autocommit=False)
+        try:
+            getattr(config, name)(S2, attr='go')
+            rejected.append([name, False])
+        except ConfigurationError:
+            rejected.append([name, True])
+    return {'rows': rows, 'rejected': rejected}
+
+
 def probe_secure_defaults():
     """the default of the `secure` parameter of every view-lookup entry point (inspect.signature of the live objects)"""
     import inspect
@@ -516,7 +584,7 @@ def main():
     except Exception:
         pass
     for key, fn in (('secured', probe_secured), ('call_view', probe_call_view), ('multiview', probe_multiview),
-                    ('tween', probe_tween), ('phases', probe_phases), ('secure_defaults', probe_secure_defaults), ('directives', probe_directives), ('chain', probe_chain)):
+                    ('tween', probe_tween), ('phases', probe_phases), ('secure_defaults', probe_secure_defaults), ('view_defaults', probe_view_defaults), ('directives', probe_directives), ('chain', probe_chain)):
         if not res['own_tree']:
             res[key] = None
             continue
